@@ -125,6 +125,7 @@ def pworld (inits : List Init) : World M PV where
   throw cls := throw cls
   rethrow := throw "reraise"
   catchAll body handler := tryCatch body (fun _ => handler)
+  catchCls cls body handler := tryCatch body (fun e => if e == cls then handler else throw e)
 
 /-- one pass of the initializer loop -/
 def istep (inits : List Init) (labels : List Nat) : PV → Mgr → Option Mgr
